@@ -373,28 +373,47 @@ class Model:
             return '#SPACE(%s)' % et, ' ' * ev
         if k == 'str':
             addr, flags, length = t[1], t[2], t[3]
+            endp = t[4] if t[4:] else None
+            if not 0 <= addr <= 65535 or (length is not None and length >= 0 and addr + length > 65536):
+                raise Unsupported('string outside the 64K address space')
             data = []
+            if flags & 8 and endp is None:
+                raise Unsupported('flag 8 without end parameter')
             if length is None or length < 0:
                 a = addr
                 while a < 65536:
                     b = self.mem[a]
-                    if b == 0:
+                    if flags & 8:
+                        op, n = endp
+                        if (op == '==' and b == n) or (op == '>=' and b >= n) or (op == '&' and b & n) or (op == '<' and b < n):
+                            break
+                    elif b == 0:
                         break
-                    if b & 128:
+                    elif b & 128:
                         data.append(b & 127)
                         break
                     data.append(b)
                     a += 1
+                    if len(data) > 64:
+                        raise Unsupported('unterminated string')
             else:
                 data = list(self.mem[addr:addr + length])
-            if any(b < 32 or b > 126 or b in (35,) for b in data):
-                raise Unsupported('non-printable string')
+            if any(b < 32 or b > 126 or b in (35, 38, 60, 62, 123, 125) for b in data):
+                raise Unsupported('string bytes outside the mode-independent printable domain')
             s = ''.join(chr(ZX_CHARS.get(b, b)) for b in data)
             if flags & 1:
                 s = s.rstrip()
             if flags & 2:
                 s = s.lstrip()
-            txt = '#STR(%d%s%s)' % (addr, (',%d' % flags) if flags or length is not None else '', (',%d' % length) if length is not None else '')
+            # flags & 4: runs of spaces become #SPACE(N), whose expansion is N spaces again (modulo the HTML entity)
+            args = str(addr)
+            if flags or length is not None:
+                args += ',%d' % flags
+            if length is not None:
+                args += ',%d' % length
+            txt = '#STR(%s)' % args      # always parenthesised: the bare form swallows a comma or digit that happens to follow it
+            if flags & 8 and (length is None or length < 0):
+                txt += '($b%s%d)' % (endp[0], endp[1])
             return txt, s
         if k == 'pc':
             return '#PC', str(self.pc)
@@ -421,7 +440,12 @@ class Model:
             out = ''
             self.vars[name] = n
             while self.vars[name] > 0:
-                out += self._expand_tree(t[3]).strip()
+                o = self._expand_tree(t[3])
+                if o != o.strip() and _makes_spaces(t[3]):
+                    # documented mode dependence: #SPACE is spaces in ASM mode and &#160; references in HTML mode, and
+                    # #WHILE strips whitespace (only) from each expansion of its body
+                    raise Unsupported('#SPACE output at the edge of a #WHILE body')
+                out += o.strip()
                 self.vars[name] -= 1
             return txt, out
         raise ValueError(t)
@@ -507,7 +531,7 @@ class Model:
             st, so = self.S(t[2])
             if '{' in so or '}' in so:
                 raise Unsupported('braces in string value')
-            if '#CHR' in st or '#SPACE' in st:
+            if '#CHR' in st or '#SPACE' in st or _makes_spaces(t[2]):
                 # documented mode dependence: in HTML mode these expand to character references, which a later
                 # #FORMAT case/width operation treats differently from the character itself
                 raise Unsupported('character references stored in a variable')
@@ -586,6 +610,16 @@ class Model:
         # reading term
         return self.S(t)
 
+def _makes_spaces(t):
+    """Does the term contain #SPACE, or a #STR whose flags make it emit #SPACE?"""
+    if isinstance(t, list):
+        if t and t[0] == 'space':
+            return True
+        if t and t[0] == 'str' and t[2] & 4:
+            return True
+        return any(_makes_spaces(x) for x in t)
+    return False
+
 def _subst_tree(t, var, value):
     if isinstance(t, list):
         if t and t[0] == 't':
@@ -644,6 +678,9 @@ def _eval_suffix(v, suffix):
 
 class Gen:
     def __init__(self, rng, model):
+        if not hasattr(model, 'strings'):
+            model.strings = []
+        self.strings = model.strings
         self.rng = rng
         self.m = model
 
@@ -715,9 +752,24 @@ class Gen:
             return r.choice(('(', '(', '(', '[', '{', '//', '||', '| ', '/ ', '@@', '!:'))
         return r.choice(('(', '(', '[', '{', '/', '|', '!', '@'))
 
+    def str_term(self):
+        r = self.rng
+        addr, n, term, last = r.choice(self.strings)
+        flags = r.choice((0, 0, 1, 2, 3, 4, 5, 7))
+        paren = r.random() < 0.3
+        c = r.random()
+        if term == 'marker' or c < 0.15:
+            endp = ['==', last] if term == 'marker' else r.choice((['==', 0], ['>=', 128], ['&', 128], ['<', 32]))
+            return ['str', addr, flags | 8, None, endp, paren]
+        if c < 0.4:
+            return ['str', addr + r.randrange(0, 2), flags, r.choice((n, n, max(0, n - 1), 1, 0)), None, paren]
+        return ['str', addr, flags, r.choice((None, None, -1)), None, paren]
+
     def S(self, depth, var=None, numeric=True):
         """A reading term.  If `var` is given, occurrences of the loop variable are planted."""
         r = self.rng
+        if self.strings and r.random() < 0.12:
+            return self.str_term()
         k = r.random()
         if depth <= 0 or k < 0.15:
             t = self.text(0, 6, 'abcdefghijklm ABC0123456789.:;!?_-+*=<>&\'"<&')
@@ -770,6 +822,21 @@ class Gen:
         if k < 0.96:
             return ['space', None if r.random() < 0.3 else ['lit', r.randrange(0, 6), 'd'], r.random() < 0.5]
         if k < 0.97:
+            if self.strings and r.random() < 0.5:
+                return self.str_term()
+            return ['pc']
+        if False:
+            if True:
+                addr, n, term, last = r.choice(self.strings)
+                flags = r.choice((0, 0, 1, 2, 3, 4, 5, 7))
+                paren = r.random() < 0.3
+                c = r.random()
+                if term == 'marker' or c < 0.15:
+                    endp = ['==', last] if term == 'marker' else r.choice((['==', 0], ['>=', 128], ['&', 128], ['<', 32]))
+                    return ['str', addr, flags | 8, None, endp, paren]
+                if c < 0.4:
+                    return ['str', addr + r.randrange(0, 2), flags, r.choice((n, n, max(0, n - 1), 1, 0)), None, paren]
+                return ['str', addr, flags, r.choice((None, None, -1)), None, paren]
             return ['pc']
         if k < 0.985 and self.m.defs and var is None:
             name = r.choice(sorted(self.m.defs))
@@ -811,6 +878,24 @@ class Gen:
             name = r.choice(sorted(m.dicts))
             isstr = m.dicts[name][0]
             return ['letk', name, isstr, self.E(1) if r.random() < 0.5 else ['lit', r.randrange(0, 12), 'd'], self.text(1, 3, 'abcxyz') if isstr else self.E(depth - 2)]
+        if k < 0.33:
+            # plant a string for #STR: text + terminator (zero byte, bit 7 on the last character, or a marker byte)
+            txt = self.text(1, 7, 'abcdefgh  XYZ 0123.:;!?_-+*=^`')
+            if r.random() < 0.3:
+                txt = ' ' * r.randrange(0, 3) + txt + ' ' * r.randrange(0, 4)
+            term = r.choice(('zero', 'zero', 'bit7', 'marker', 'none'))
+            data = [ord(c) for c in txt]
+            if r.random() < 0.15:
+                data[r.randrange(len(data))] = 127
+            if term == 'zero':
+                data.append(0)
+            elif term == 'bit7':
+                data[-1] |= 128
+            elif term == 'marker':
+                data.append(r.choice((255, 128, 13, 1)))
+            addr = r.choice((33000, 49152 - len(data) // 2, 65536 - len(data), r.randrange(16384, 65536 - len(data))))
+            self.strings.append((addr, len(txt), term, data[-1]))
+            return ['pokes', [[addr + i, b, 1, 1] for i, b in enumerate(data)]]
         if k < 0.4:
             specs = []
             for _ in range(r.choice((1, 1, 2, 3))):
